@@ -55,6 +55,8 @@ def validate_unit(res):
         return z3.And(goal)
 
     res.add_paths(paths, post_tp, concretize=conc("tp"), kind="tp-post")
+    frac = lambda model: str(Fraction(model.eval(m, model_completion=True).numerator_as_long(), model.eval(m, model_completion=True).denominator_as_long()))
+    res.add_diff(paths, "d_c20_validate", lambda model, p: dict(m=frac(model), mode="tp"))
     # windows are pairwise disjoint, so "the" n is well defined
     win = lambda n: z3.And(m * n >= z3.RealVal("0.95"), m * n <= z3.RealVal("1.05"))
     for n in range(1, 11):
@@ -80,6 +82,7 @@ def validate_unit(res):
         return z3.ForAll([f, c, k], z3.Implies(z3.And(hyp, nearest), z3.And(some, vt == z3.ToReal(k), within(k))))
 
     res.add_paths(paths, post_lt, concretize=conc("lt"), kind="lt-post")
+    res.add_diff(paths, "d_c20_validate", lambda model, p: dict(m=frac(model), mode="lt"))
     paths = ex.explore(lambda: run("other"), [m >= 0])
     res.add_paths(paths, lambda v, p: v is None, kind="other-mode")
     return res
@@ -158,6 +161,7 @@ def decoder_unit(isa):
                 return dict(replay="c20_decode", args=dict(code=code.concretize(m), isa=isa), key=f"decode:{isa}")
 
             n = res.add_paths(paths, post, concretize=conc, kind=entry)
+            res.add_diff(paths, "d_c20_decode", lambda m, p: dict(code=code.concretize(m), isa=isa), limit=20)
             res.note(f"{entry}: {len(paths)} paths, {n} returning")
         return res
 
